@@ -13,14 +13,33 @@ ASSUME = ["sequential consistency at instrumented accesses (no weak-memory effec
           "gcc -fsanitize=thread instrumentation reports every access to the watched words",
           "each required input is released exactly once (a control gather exactly n times), as the generated code does"]
 SRC = ['deps_h.c']
+def _run_each(ctx, exe, bound, budget, env, label, cost):
+    """One engine invocation per scenario (the engine gives every scenario of one invocation only an equal share of the
+    deadline): cheap scenarios first, each may use all the time that is left of this leg's budget."""
+    import subprocess, time, vlib
+    names = subprocess.run([exe, '--list'], capture_output=True, text=True, env=env).stdout.split()
+    names.sort(key=lambda n: (cost.get(n, 10**9), n))
+    t_end = time.time() + budget
+    for n in names:
+        left = max(3, int(t_end - time.time()))
+        args = ['--bound', str(bound), '--scenario', n, '--jobs', str(vlib.NJOBS), '--outdir', vlib.OUT, '--deadline', str(left)]
+        ctx.run_engine(exe, args, label='%s.%s' % (label, n), timeout=left + 600, env=env)
+# measured number of schedules in the quick tier, used only to order the configurations
+COST = dict(mask_array_g1_in2=18, counter_array_g1_in2=18, mask_array_g2=90, counter_array_g2=94, mask_hash_g3=132, counter_hash_g3=132,
+            counter_hash_g2_gather2=166, mask_hash_g2_in1_ctl=218, mask_hash_g2=274, counter_hash_g2=274, mask_array_g4=310, counter_array_g4=316,
+            mask_array_g2_in1_ctl=476, mask_array_g3=690, counter_array_g3=702, counter_array_g1_ctl_gather2=924)
 def check(ctx):
-    import vlib
+    import time
     exe = ctx.compile('hk-shm', 'deps', SRC, engine='cosched')
     q = ctx.tier == 'quick'
-    env = dict(os.environ); env['C07_QUICK'] = '1' if q else '0'
-    deadline = 70 if q else 1080
-    args = ['--bound', '4', '--scenario', 'all', '--jobs', str(vlib.NJOBS), '--outdir', vlib.OUT, '--deadline', str(deadline)]   # per-configuration caps are in deps_h.c
-    ctx.run_engine(exe, args, label='deps', timeout=deadline + 600, env=env)
+    envq = dict(os.environ); envq['C07_QUICK'] = '1'
+    envt = dict(os.environ); envt['C07_QUICK'] = '0'
+    if q:
+        _run_each(ctx, exe, 4, 85, envq, 'deps', COST)              # per-scenario bound caps are in the harness source
+    else:
+        t0 = time.time()
+        _run_each(ctx, exe, 4, 300, envq, 'deps-quickcaps', COST)   # pass A: the quick tier's set and bounds, so that nothing is starved
+        _run_each(ctx, exe, 4, max(60, 1080 - (time.time() - t0)), envt, 'deps-deep', COST)   # pass B: the thorough caps, cheapest first
     return ctx.finish(RULE, ASSUME)
 def replay(ctx, path, obj):
     import subprocess
